@@ -20,7 +20,7 @@ CHECKS = {
 
 CHECKS["C02"] = {
     "technique": "MIR abstract interpretation on fully expanded, tree-shaped bodies: per-path postconditions (success exit = source address with source extent == target extent; rejecting exits only under len != N) + delegation, signature-region and aggregate-position rules",
-    "text": "Static analysis of the polymorphic MIR (length N symbolic, so the verdict covers every N and T): the view constructors return (address of self, N elements); at each slice-to-array reborrow the dominating branch facts prove len == N exactly (a `<`/`>`/`>=` guard is reported), the rejecting exits are reached only under len != N, and the success value is the source pointer itself; [T; U] conversions have equal symbolic sizes under the Const<U>: IntoArrayLength<ArrayLength = N> clause; the trait forms delegate to those; the 24 tuple impls keep operand i at position i; every returned reference's region and mutability is tied to its source parameter. A sweep applies the exact-extent rule to any other slice-derived reborrow in the crate. C02.M: the same write-permission rule for the mutable views.",
+    "text": "Static analysis of the polymorphic MIR (length N symbolic, so the verdict covers every N and T): the view constructors return (address of self, N elements); at each slice-to-array reborrow the dominating branch facts prove len == N exactly (a `<`/`>`/`>=` guard is reported, and so is a comparison of values cast to a narrower integer type or with typenum's narrow constants such as N::U32 - truncated quantities say nothing about the length), the rejecting exits are reached only under len != N, and the success value is the source pointer itself; [T; U] conversions have equal symbolic sizes under the Const<U>: IntoArrayLength<ArrayLength = N> clause; the trait forms delegate to those; the 24 tuple impls keep operand i at position i; every returned reference's region and mutability is tied to its source parameter. A sweep applies the exact-extent rule to any other slice-derived reborrow in the crate. C02.M: the same write-permission rule for the mutable views.",
     "design_ref": "DESIGN.md §3 C02",
     "note": TRUST + " 'A write through one view is seen through all others' is entailed by same address + same extent and is not separately observed.",
 }
@@ -59,7 +59,7 @@ CHECKS["C03"] = {
 }
 CHECKS["C04"] = {
     "technique": "unwind-window typestate over MIR: ownership state at every call that can run caller code inside each element-moving step (closure or loop); owner liveness on unwind edges through drop flags; foreign-call classification from resolved callees",
-    "text": "Static typestate analysis: every call terminator that can run caller-supplied code (closure calls, Clone/Default/Iterator::next/SeqAccess on generic types, generic drops, and crate functions that transitively contain one) is visited with the abstract ownership state at that point - in consumer closures every ptr::read-duplicated element has already been excluded from its owner, in builder closures/loops a written slot is already counted and never counted before written; each position is a field of a tracked owner whose storage the slots iterate, and drop elaboration drops that owner on the unwind path of the driving call (followed through drop flags); raw element writes outside closures are counted by a live owner before any later foreign call; helper-function models are verified against the helpers' bodies. This quantifies over every panic point because unwind edges are explicit in MIR; no panic is injected. It found the GenericArrayIter::clone leak (fixed, see known_findings.json). C04.Y: the same duplicate-window rule for raw reads outside protocol closures and pipeline loops (hand-written index loops in methods of an owner).",
+    "text": "Static typestate analysis: every call terminator that can run caller-supplied code (closure calls, Clone/Default/Iterator::next/SeqAccess on generic types, generic drops, and crate functions that transitively contain one) is visited with the abstract ownership state at that point - in consumer closures every ptr::read-duplicated element has already been excluded from its owner, in builder closures/loops a written slot is already counted and never counted before written; each position is a field of a tracked owner whose storage the slots iterate, and drop elaboration drops that owner on the unwind path of the driving call (followed through drop flags); raw element writes outside closures are counted by a live owner before any later foreign call; helper-function models are verified against the helpers' bodies. This quantifies over every panic point because unwind edges are explicit in MIR; no panic is injected. It found the GenericArrayIter::clone leak (fixed, see known_findings.json). C04.Y: the same duplicate-window rule for raw reads outside protocol closures and pipeline loops (hand-written index loops in methods of an owner). C04.D: values that are not elements (an accumulator threaded through the caller's closure): a bitwise copy read out of a plain local - the function's own or the enclosing function's through a closure upvar - must be written back before any call that can run caller code unless drop elaboration does not release that local on the unwind path (no instance on the reviewed tree; positive fixture with a ManuallyDrop twin on every run).",
     "design_ref": "DESIGN.md §3 C04",
     "note": TRUST + " Overflow checks on positions are not treated as foreign code; a panic while dropping the caller's closure object itself is outside the property's quantifier.",
 }
@@ -125,7 +125,7 @@ CHECKS["C17"] = {
 }
 CHECKS["C18"] = {
     "technique": "item facts (constness/visibility of the frozen const surface), const-qualification witnesses in const fn position (no evaluation), zero-count rule for const/run-time divergence intrinsics with a positive fixture, cross-referenced pointer/extent obligations",
-    "text": "PARTIAL CLAIM. Not decided: that the const evaluator accepts each call on the lattice of lengths, and that compile-time and run-time values agree - both are executions of the crate's MIR by an interpreter. Decided statically: every function of the frozen const surface (27 + const_default) is still `const fn` (and exported), each is called from a const fn witness (rustc's const-qualification, nothing is evaluated) with a reject twin calling a non-const fn, arr! expands in const fn position in all its forms; no body of the crate calls const_eval_select-style intrinsics, so compile time and run time execute the same MIR (the matcher is exercised on a positive fixture); and the UB-freedom obligations of the raw operations inside those const fns - the instances of C02.V/G/T, C10.C/F/X, C01.T, C03.A, which hold for all N and all slice lengths - are re-checked here. C18.M write permission: no pointer derived from a shared borrow is written through, handed to from_raw_parts_mut / ptr::write / a copy destination, or reborrowed as &mut, whatever casts lie in between (the condition under which the const evaluator rejects a write; taint dataflow over every body, positive and negative fixture).",
+    "text": "PARTIAL CLAIM. Not decided: that the const evaluator accepts each call on the lattice of lengths, and that compile-time and run-time values agree - both are executions of the crate's MIR by an interpreter. Decided statically: every function of the frozen const surface (27 + const_default) is still `const fn` (and exported), each is called from a const fn witness (rustc's const-qualification, nothing is evaluated) with a reject twin calling a non-const fn, arr! expands in const fn position in all its forms; no body of the crate calls const_eval_select-style intrinsics, so compile time and run time execute the same MIR (the matcher is exercised on a positive fixture); and the UB-freedom obligations of the raw operations inside those const fns - the instances of C02.V/G/T, C10.C/F/X, C01.T, C03.A, which hold for all N and all slice lengths - are re-checked here. C18.M write permission: no pointer derived from a shared borrow is written through, handed to from_raw_parts_mut / ptr::write / a copy destination, or reborrowed as &mut, whatever casts lie in between (the condition under which the const evaluator rejects a write; taint dataflow over every body, positive and negative fixture). C18.K bounded evaluation cost: the MIR of every const fn and of the crate functions it calls is loop-free and the call graph among them acyclic, so the evaluator's work does not grow with the length and its long-running-evaluation limit cannot be what rejects a large array.",
     "design_ref": "DESIGN.md §3 C18, §4",
     "note": TRUST + " The const evaluator's faithfulness to MIR semantics is trusted.",
 }
